@@ -58,9 +58,16 @@ Definition run_dcase ftbl stmts decls du dtbl (c : dcase) : tree * bool :=
   let att := link (map snd frs) in
   (decorate du dtbl att (fc_tree (dc_f c)), err || l_panic att).
 
+(* the declarative reading of the decorator table (Model/Decorate.v decorateD) *)
+Definition run_dcaseD ftbl stmts decls du dtbl (c : dcase) : tree * bool :=
+  let '(frs, err) := run_fcase ftbl stmts decls (dc_f c) in
+  let att := link (map snd frs) in
+  (decorateD du dtbl att (fc_tree (dc_f c)), err || l_panic att).
+
 Definition check_dcase ftbl stmts decls du dtbl (c : dcase) : bool :=
   let '(d, bad) := run_dcase ftbl stmts decls du dtbl c in
-  negb bad && tree_sim d (dc_expect c).
+  let '(d2, _) := run_dcaseD ftbl stmts decls du dtbl c in
+  negb bad && tree_sim d (dc_expect c) && tree_sim d2 (dc_expect c).
 
 Definition bad_dcases ftbl stmts decls du dtbl (cs : list dcase) : list nat := bad_idx (check_dcase ftbl stmts decls du dtbl) 0 cs.
 
@@ -85,7 +92,7 @@ Definition restore_token_lengths rtbl (d : tree) : list Z :=
   flat_map (fun a => match a with AAdv l => [l] | _ => [] end) (flatten rtbl false (fun _ => None) d).
 
 Definition tokens_ok ftbl stmts decls du dtbl rtbl (c : dcase) : bool :=
-  let '(d, bad) := run_dcase ftbl stmts decls du dtbl c in
+  let '(d, bad) := run_dcaseD ftbl stmts decls du dtbl c in
   bad || list_eqb Z.eqb (restore_token_lengths rtbl d) (frag_token_lengths ftbl (fc_tree (dc_f c))).
 
 Definition bad_tokens ftbl stmts decls du dtbl rtbl (cs : list dcase) : list nat := bad_idx (tokens_ok ftbl stmts decls du dtbl rtbl) 0 cs.
@@ -101,8 +108,26 @@ Record pcase := mkPC {
 }.
 
 Definition check_pcase ftbl stmts decls du dtbl rtbl (c : pcase) : bool :=
-  let '(d, bad) := run_dcase ftbl stmts decls du dtbl (mkDC (pc_f c) (Node 0 "" [] [] [] SNone SNone)) in
+  let '(d, bad) := run_dcaseD ftbl stmts decls du dtbl (mkDC (pc_f c) (Node 0 "" [] [] [] SNone SNone)) in
   negb bad &&
   check_rcase rtbl (mkRC d (pc_base c) false [] false (pc_lines c) (pc_size c) (pc_comments c) (pc_pos c)).
 
 Definition bad_pcases ftbl stmts decls du dtbl rtbl (cs : list pcase) : list nat := bad_idx (check_pcase ftbl stmts decls du dtbl rtbl) 0 cs.
+
+(* ---- the alias-list hypothesis of the end-to-end theorem, evaluated ------------------------------ *)
+(* every element of File.Imports is a spec of one of the file's declarations (File nodes occur only
+   at the root of the trees of the correspondence) *)
+Definition imports_aliasedb (f : tree) : bool :=
+  match lookup (tkids f) "Imports" with
+  | Some (Many imps) =>
+    forallb (fun c =>
+      existsb (fun g => String.eqb (tkind g) "GenDecl" &&
+                        match lookup (tkids g) "Specs" with
+                        | Some (Many specs) => existsb (tree_eqb c) specs
+                        | _ => false
+                        end)
+              (match lookup (tkids f) "Decls" with Some (Many ds) => ds | _ => [] end)) imps
+  | _ => true
+  end.
+
+Definition bad_alias (cs : list dcase) : list nat := bad_idx (fun c => imports_aliasedb (fc_tree (dc_f c))) 0 cs.
